@@ -300,6 +300,14 @@ def description(req, uid):
     elif mode == 'exec':
         d['code'] = 'import rpverif.props.c20 as _m\n' \
                     'return _m.run_payload(%r)' % (spec,)
+        if req.get('pre') == 'import':
+            d['pre_exec'] = ['import json as _c20json']
+        elif req.get('pre') == 'setenv':
+            d['pre_exec'] = ['import os',
+                             'os.environ["C20PRE_%d"] = "by pre_exec"'
+                             % req.get('pre_i', 0)]
+        elif req.get('pre') == 'print':
+            d['pre_exec'] = ['print("pre-exec output")']
     elif mode == 'shell':
         d['command'] = shell_script(spec)
     elif mode == 'proc':
@@ -339,10 +347,20 @@ def judge_tuple(req, tup, view_expected):
     spec, mode = req['spec'], req['mode']
     bad  = list()
     view = None
+    pre_missing = False
+    if req.get('pre') == 'print' and not req.get('bad_sandbox'):
+        if (out or '').startswith('pre-exec output\n'):
+            out = out[len('pre-exec output\n'):]
+        else:
+            pre_missing = True
 
     def say(mech, msg):
         bad.append((mech, '%s %s: %s [%r]' % (mode, req['cls'], msg,
                                                (out, err, ret, val, exc))))
+
+    if pre_missing:
+        say('output-wrong', 'what the pre_exec statements printed is not in '
+            'the captured output')
 
     if req.get('bad_sandbox'):
         # the request never ran: its sandbox could not be created.  What has
@@ -475,6 +493,11 @@ def gen_request(rng, i, modes=MODES, classes=CLASSES, weights=None):
     if rng.random() < 0.4:
         for k in rng.sample(KEYS, rng.randint(1, 2)):
             req['environment'][k] = 'env_of_r%d' % i
+    if mode == 'exec' and rng.random() < 0.5:
+        # the optional `pre_exec` statements of exec requests are part of the
+        # request: what they print is its output, what they export is undone
+        req['pre'] = rng.choice(['import', 'setenv', 'print'])
+        req['pre_i'] = i
     return req
 
 
